@@ -98,3 +98,21 @@ impl From<ChMuxError<std::io::Error, std::io::Error>> for std::io::Error {
         }
     }
 }
+
+/// Verification hooks (only with cargo feature `verif`): access to the wire codec
+/// for differential checking against an external reference codec.
+#[cfg(feature = "verif")]
+#[doc(hidden)]
+pub mod verif_hooks {
+    pub use super::msg::{ExchangedCfg, MultiplexMsg};
+
+    /// Encodes a protocol message exactly as the multiplexer does.
+    pub fn encode(msg: &MultiplexMsg) -> Vec<u8> {
+        msg.to_vec()
+    }
+
+    /// Decodes a protocol message exactly as the multiplexer does.
+    pub fn decode(data: &[u8]) -> Result<MultiplexMsg, std::io::Error> {
+        MultiplexMsg::read(data)
+    }
+}
